@@ -358,7 +358,7 @@ Definition k1_a : ju_trip := {| ut_id := "0000000x"; ut_route := ""; ut_dir := 0
 Definition k1_b : ju_trip := {| ut_id := "000000x"; ut_route := ""; ut_dir := 0; ut_date := 100; ut_time := 0; ut_vehicle := Some (Some "v"); ut_stops := [] |}.
 (* the unguarded statement "one entry per distinct (start instant, id suffix)" is false of the model, as of the code *)
 Example uid_collision_refuted : uid_of k1_a = uid_of k1_b /\ (start_of k1_a, sdrop 6 (ut_id k1_a)) <> (start_of k1_b, sdrop 6 (ut_id k1_b)) /\
-  List.length (build_journal [{| jf_created := 1000; jf_trips := [k1_a; k1_b] |}] (-1000000) 1000000) = 1%nat.
+  List.length (build_journal [{| jf_created := 1000; jf_trips := [k1_a; k1_b] |}] (ns (-1000000)) (ns 1000000)) = 1%nat.
 Proof. split; [vm_compute; reflexivity|]. split; [intros H; inversion H|vm_compute; reflexivity]. Qed.
 Example nyct_like_example : nyct_like {| ut_id := "067800_L..N"; ut_route := "L"; ut_dir := 2; ut_date := 1699938000; ut_time := 40680000000000; ut_vehicle := None; ut_stops := [] |}.
 Proof. split; [vm_compute; discriminate|vm_compute; reflexivity]. Qed.
